@@ -205,29 +205,19 @@ func GetNode(children []*Node, path string) (*Node, bool) {
 	pathSplit := strings.SplitN(path, "/", 2)
 	searchName := pathSplit[0]
 
-	left := 0
-	right := len(children)
-	for {
-		middle := (left + right) / 2
-		node := children[middle]
-		if node.Name == searchName {
-			if len(node.Children) == 0 {
-				return node, true
-			}
-			if len(pathSplit) > 1 {
-				return GetNode(node.Children, pathSplit[1])
-			} else {
-				return node, true
-			}
-		} else if node.Name < searchName {
-			left = middle + 1
-		} else {
-			right = middle
+	// children are stored in the order of the full paths ("test.c" before "test/"),
+	// which is not the order of the plain names, so they cannot be binary-searched by name
+	for _, node := range children {
+		if node.Name != searchName {
+			continue
 		}
-
-		if right-left < 1 {
-			break
+		if len(node.Children) == 0 {
+			return node, true
 		}
+		if len(pathSplit) > 1 {
+			return GetNode(node.Children, pathSplit[1])
+		}
+		return node, true
 	}
 
 	return nil, false
